@@ -136,3 +136,57 @@ pub fn factory_step(op: &str, mode: &str, limit: usize, queue: &[(u64, bool)], i
     let d: Vec<String> = rec.0.lock().unwrap().iter().map(|(r, m)| format!("{r}:{m}")).collect();
     format!("queue={};routed={};discards={}", left.join("+"), r.join("+"), d.join("+"))
 }
+
+/// `worker_finished_job(0, key 5)` on a factory whose only worker (wid 0) has the given queue (keys; msg ids 0..), one job of key 5 in flight and
+/// the given draining flag; the factory backlog holds `fq` jobs (msg ids 50..). The worker actor logs what it really handles.
+/// Returns "inpool=0|1;wqueue=ids;fqueue=ids;handled=ids;discards=..;routed=ids;worker_alive=0|1".
+pub async fn factory_finished(queue: &[u64], draining: bool, fq: usize) -> String {
+    use crate::factory::worker::verif_probe as wp;
+    let (w, got, wrec) = wp::record_logging(queue, &[5], draining).await;
+    let worker_actor = w.actor.clone();
+    let routed = Arc::new(Mutex::new(Vec::new()));
+    let rec = Arc::new(Recorder(Mutex::new(Vec::new())));
+    let mut q = DefaultQueue::<u64, u64>::default();
+    for i in 0..fq {
+        q.push_back(a_job(50 + i as u64, false));
+    }
+    let mut pool = HashMap::new();
+    let mut worker_by_actor = HashMap::new();
+    worker_by_actor.insert(w.actor.get_id(), 0usize);
+    pool.insert(0usize, w);
+    let mut state: FactoryState<u64, u64, ProbeWorker, (), ScriptRouter, DefaultQueue<u64, u64>> = FactoryState {
+        factory_name: "verif".to_string(),
+        worker_builder: Box::new(ProbeBuilder),
+        pool_size: 1,
+        pool,
+        worker_by_actor,
+        stats: None,
+        router: ScriptRouter { script: Default::default(), choose: Default::default(), routed: routed.clone() },
+        queue: q,
+        discard_handler: Some(rec.clone()),
+        discard_settings: DiscardSettings::None,
+        drain_state: DrainState::NotDraining,
+        dead_mans_switch: None,
+        dead_mans_check: None,
+        capacity_controller: None,
+        lifecycle_hooks: None,
+    };
+    let _ = state.worker_finished_job(0, 5);
+    for _ in 0..50 {
+        tokio::task::yield_now().await;
+    }
+    crate::concurrency::sleep(Duration::from_millis(20)).await;
+    let inpool = state.pool.contains_key(&0);
+    let wq: Vec<String> = state.pool.get(&0).map(|w| wp::queue_ids(w).iter().map(|x| x.to_string()).collect()).unwrap_or_default();
+    let mut fqv = Vec::new();
+    while let Some(j) = state.queue.pop_front() {
+        fqv.push(j.msg.to_string());
+    }
+    let h: Vec<String> = got.lock().unwrap().iter().map(|x| x.to_string()).collect();
+    let mut d: Vec<String> = rec.0.lock().unwrap().iter().map(|(r, m)| format!("{r}:{m}")).collect();
+    d.extend(wp::recorded(&wrec).iter().map(|(r, m)| format!("{r}:{m}")));
+    let r: Vec<String> = routed.lock().unwrap().iter().map(|x| x.to_string()).collect();
+    let alive = matches!(worker_actor.get_status(), crate::ActorStatus::Running | crate::ActorStatus::Upgrading);
+    worker_actor.stop(None);
+    format!("inpool={};wqueue={};fqueue={};handled={};discards={};routed={};worker_alive={}", inpool as u8, wq.join("+"), fqv.join("+"), h.join("+"), d.join("+"), r.join("+"), alive as u8)
+}
